@@ -38,6 +38,7 @@ var namedOperand = map[string]string{
 // roleExceptions: callee / parameter / argument name → reason (confirmed by reading; one symbol each).
 var roleExceptions = map[string]string{
 	"childClaimMap.setParentRevision/pr/latest": "moving the claim to the latest revision is the purpose of these calls; the caller's pr is the previous claimant",
+	"GroupVersion.WithResource/resource/Name":   "metav1.APIResource.Name IS the plural resource name",
 }
 
 func normName(s string) string {
@@ -278,6 +279,15 @@ func roleFindingsUncached(p *Program) ([]roleFinding, int) {
 				}
 				ast.Inspect(fd.Body, func(n ast.Node) bool {
 					switch x := n.(type) {
+					case *ast.KeyValueExpr:
+						// (X') Field: recv.GetOther() although recv has GetField() of that type
+						if kid, isK := x.Key.(*ast.Ident); isK {
+							if f := wrongGetter(info, normName(kid.Name), x.Value); f != "" {
+								pos := p.Fset.Position(x.Pos())
+								ord["kv"]++
+								out = append(out, roleFinding{rel + ":" + itoaN(pos.Line), fd.Name.Name + "→field(" + kid.Name + ")#" + itoaN(ord["kv"]-1), "field " + kid.Name + " is filled with " + f, rel})
+							}
+						}
 					case *ast.BlockStmt:
 						// (Q) `…, err := call(…)` followed at once by `if otherErr != nil`: the test is about another error
 						for si := 0; si+1 < len(x.List); si++ {
@@ -315,6 +325,26 @@ func roleFindingsUncached(p *Program) ([]roleFinding, int) {
 							out = append(out, roleFinding{rel + ":" + itoaN(pos.Line), fd.Name.Name + "→error-test#" + itoaN(ord["errnext"]-1), "the call just before assigns its error to " + last.Name + ", but the test that follows looks at " + ci.Name + ": a failure of that call is not noticed here", rel})
 						}
 					case *ast.AssignStmt:
+						// (X') name := recv.GetOther() / x.Field = recv.GetOther()
+						if len(x.Lhs) == len(x.Rhs) {
+							for i := range x.Lhs {
+								ln := ""
+								switch l := x.Lhs[i].(type) {
+								case *ast.Ident:
+									ln = l.Name
+								case *ast.SelectorExpr:
+									ln = l.Sel.Name
+								}
+								if ln == "" || ln == "_" {
+									continue
+								}
+								if f := wrongGetter(info, normName(ln), x.Rhs[i]); f != "" {
+									pos := p.Fset.Position(x.Pos())
+									ord["asgget"]++
+									out = append(out, roleFinding{rel + ":" + itoaN(pos.Line), fd.Name.Name + "→assign(" + ln + ")#" + itoaN(ord["asgget"]-1), ln + " is given " + f, rel})
+								}
+							}
+						}
 						// (U) x = x
 						if x.Tok.String() == "=" && len(x.Lhs) == len(x.Rhs) {
 							for i := range x.Lhs {
@@ -458,6 +488,22 @@ func roleFindingsUncached(p *Program) ([]roleFinding, int) {
 								}
 							}
 						}
+						// (M') a.GetF() op b.GetG() with F ≠ G
+						if x.Op.String() == "==" || x.Op.String() == "!=" {
+							gx, okGX := x.X.(*ast.CallExpr)
+							gy, okGY := x.Y.(*ast.CallExpr)
+							if okGX && okGY && len(gx.Args) == 0 && len(gy.Args) == 0 {
+								sx, okSX := gx.Fun.(*ast.SelectorExpr)
+								sy, okSY := gy.Fun.(*ast.SelectorExpr)
+								if okSX && okSY && sx.Sel.Name != sy.Sel.Name && strings.HasPrefix(sx.Sel.Name, "Get") && strings.HasPrefix(sy.Sel.Name, "Get") {
+									if wrongGetter(info, normName(strings.TrimPrefix(sx.Sel.Name, "Get")), x.Y) != "" || wrongGetter(info, normName(strings.TrimPrefix(sy.Sel.Name, "Get")), x.X) != "" {
+										pos := p.Fset.Position(x.Pos())
+										ord["getcmp"]++
+										out = append(out, roleFinding{rel + ":" + itoaN(pos.Line), fd.Name.Name + "→getter-compare#" + itoaN(ord["getcmp"]-1), sx.Sel.Name + "() of one object is compared with " + sy.Sel.Name + "() of the other although both have both: unlike things are compared", rel})
+									}
+								}
+							}
+						}
 						// (G) x == x / x != x
 						if (x.Op.String() == "==" || x.Op.String() == "!=") && sameVar(x.X, x.Y) {
 							pos := p.Fset.Position(x.Pos())
@@ -513,6 +559,11 @@ func roleFindingsUncached(p *Program) ([]roleFinding, int) {
 							return x.Name
 						case *ast.SelectorExpr:
 							return x.Sel.Name
+						case *ast.CallExpr:
+							// x.GetFoo() names its result
+							if gs, isSel := x.Fun.(*ast.SelectorExpr); isSel && len(x.Args) == 0 && strings.HasPrefix(gs.Sel.Name, "Get") && len(gs.Sel.Name) > 3 {
+								return strings.TrimPrefix(gs.Sel.Name, "Get")
+							}
 						}
 						return ""
 					}
@@ -546,8 +597,42 @@ func roleFindingsUncached(p *Program) ([]roleFinding, int) {
 						pi := sig.Params().At(i)
 						pn := normName(pi.Name())
 						an := normName(argName(ce.Args[i]))
+						if xc, isXC := ce.Args[i].(*ast.CallExpr); isXC && pn != "" {
+							pos := p.Fset.Position(ce.Args[i].Pos())
+							where := rel + ":" + itoaN(pos.Line)
+							// (X) parameter p is given recv.GetQ() although recv has a GetP() of the same type: wrong accessor
+							if gs, isSel := xc.Fun.(*ast.SelectorExpr); isSel && len(xc.Args) == 0 && strings.HasPrefix(gs.Sel.Name, "Get") {
+								if q := normName(strings.TrimPrefix(gs.Sel.Name, "Get")); q == pn || (len(q) >= 4 && strings.HasSuffix(pn, q)) {
+									goto afterX
+								}
+								if rt := info.TypeOf(gs.X); rt != nil {
+									ms := types.NewMethodSet(rt)
+									for q := 0; q < ms.Len(); q++ {
+										m := ms.At(q).Obj()
+										mn := strings.TrimPrefix(normName(m.Name()), "get")
+										if !strings.HasPrefix(m.Name(), "Get") || m.Name() == gs.Sel.Name || !(mn == pn || (len(mn) >= 4 && strings.HasSuffix(pn, mn))) {
+											continue
+										}
+										msig, isSig := m.Type().(*types.Signature)
+										if !isSig || msig.Params().Len() != 0 || msig.Results().Len() != 1 || !types.Identical(msig.Results().At(0).Type(), pi.Type()) {
+											continue
+										}
+										out = append(out, roleFinding{where, construct + "[arg" + itoaN(i) + "]", "parameter " + pi.Name() + " of " + ckey + " is given " + gs.Sel.Name + "() although the same object has " + m.Name() + "(): wrong accessor", rel})
+									}
+								}
+							}
+						}
+					afterX:
 						if pn == "" || an == "" || an == pn {
 							continue
+						}
+						// (Y) the argument is called one kind of identifier (resource, kind, namespace, apiversion, group),
+						// the string parameter another
+						if pw, aw := roleWord(pn), roleWord(an); pw != "" && aw != "" && pw != aw && !strings.Contains(an, pw) && roleExceptions[ckey+"/"+pi.Name()+"/"+argName(ce.Args[i])] == "" {
+							if at := info.TypeOf(ce.Args[i]); at != nil && types.Identical(at, pi.Type()) && types.Identical(at.Underlying(), types.Typ[types.String]) {
+								pos := p.Fset.Position(ce.Args[i].Pos())
+								out = append(out, roleFinding{rel + ":" + itoaN(pos.Line), construct + "[arg" + itoaN(i) + "]", "parameter " + pi.Name() + " of " + ckey + " is given " + argName(ce.Args[i]) + ": a " + aw + " where a " + pw + " is expected", rel})
+							}
 						}
 						soft := sameRole(an, pn)
 						pos := p.Fset.Position(ce.Args[i].Pos())
@@ -642,6 +727,20 @@ func derefStruct(t types.Type) (*types.Struct, bool) {
 	}
 	st, ok := t.Underlying().(*types.Struct)
 	return st, ok
+}
+
+// roleWord: the kind of Kubernetes identifier a (normalised) name speaks of, "" if none or several.
+func roleWord(n string) string {
+	found := ""
+	for _, w := range []string{"apiversion", "namespace", "resource", "kind", "group"} {
+		if strings.Contains(n, w) {
+			if found != "" {
+				return ""
+			}
+			found = w
+		}
+	}
+	return found
 }
 
 func itoaN(i int) string {
@@ -1131,7 +1230,11 @@ func setterGetsOwnMap(r *Report, p *Program, rule string) {
 				k := engine.CallKey(c.Common())
 				if strings.HasSuffix(k, want) || strings.HasSuffix(k, "Unstructured.GetLabels") || strings.HasSuffix(k, "Unstructured.GetAnnotations") {
 					if g := engine.Unwrap(c.Common().Args[0]); engine.SameValue(g, recv) || E(g) == E(recv) {
-						own = true
+						if strings.HasSuffix(k, want) {
+							own = true
+						} else {
+							foreign = E(g) + " (its " + methodOf(k) + ", the other kind of map)"
+						}
 					} else {
 						foreign = E(g)
 					}
@@ -1428,6 +1531,127 @@ func channelFieldsSetOnlyAtStart(r *Report, p *Program, rule string) {
 				n++
 				ok := name == "Start" || name == "start" || strings.HasPrefix(strings.ToLower(name), "new")
 				r.Check(rule, sf("%s→store(%s)#%d", k, fieldName(fa), n), p.InstrPos(in), ok, "set where the goroutine is started", "the channel field "+fieldName(fa)+" is assigned in "+name+": a goroutine that selects on the field sees another (or a nil) channel than the one that is closed")
+			}
+		}
+	}
+}
+
+// wrongGetter: value is recv.GetQ() while target (a field, variable or parameter name, normalised) names another
+// getter GetP of recv with the same result type (P equal to the target name, or the target name ends in P).
+// Returns a description of the mix-up, or "".
+func wrongGetter(info *types.Info, target string, value ast.Expr) string {
+	c, ok := value.(*ast.CallExpr)
+	if ok && len(c.Args) == 1 {
+		if tv, has := info.Types[c.Fun]; has && tv.IsType() {
+			return wrongGetter(info, target, c.Args[0]) // T(x.GetFoo())
+		}
+	}
+	if !ok || len(c.Args) != 0 {
+		return ""
+	}
+	gs, ok := c.Fun.(*ast.SelectorExpr)
+	if !ok || !strings.HasPrefix(gs.Sel.Name, "Get") || len(gs.Sel.Name) <= 3 {
+		return ""
+	}
+	q := normName(strings.TrimPrefix(gs.Sel.Name, "Get"))
+	if q == target || (len(q) >= 4 && strings.HasSuffix(target, q)) {
+		return ""
+	}
+	rt := info.TypeOf(gs.X)
+	vt := info.TypeOf(value)
+	if rt == nil || vt == nil {
+		return ""
+	}
+	ms := types.NewMethodSet(rt)
+	for i := 0; i < ms.Len(); i++ {
+		m := ms.At(i).Obj()
+		if !strings.HasPrefix(m.Name(), "Get") || m.Name() == gs.Sel.Name {
+			continue
+		}
+		mn := strings.TrimPrefix(normName(m.Name()), "get")
+		if !(mn == target || (len(mn) >= 4 && strings.HasSuffix(target, mn))) {
+			continue
+		}
+		sig, isSig := m.Type().(*types.Signature)
+		if !isSig || sig.Params().Len() != 0 || sig.Results().Len() != 1 || !types.Identical(sig.Results().At(0).Type(), vt) {
+			continue
+		}
+		return gs.Sel.Name + "() although the same object has " + m.Name() + "(): wrong accessor"
+	}
+	return ""
+}
+
+// smallVerbClauses (C10/C12/C14/C15): four one-line contracts that the method-swap mutants showed nothing held:
+// the worker loops call processNextWorkItem; ResourceClient.AddFinalizer adds and RemoveFinalizer removes (and both
+// go through AtomicUpdate, not the status endpoint); what is handed to AtomicStatusUpdate edits status only;
+// nothing lists with labels.Nothing().
+func smallVerbClauses(r *Report, p *Program, rule string) {
+	r.Rule(rule, "worker loops call processNextWorkItem; AddFinalizer adds / RemoveFinalizer removes through AtomicUpdate; AtomicStatusUpdate callbacks edit status only; no labels.Nothing()")
+	r.Floor(rule, 4)
+	for _, typ := range []string{"controller/composite.parentController", "controller/decorator.decoratorController"} {
+		if f := fn(r, p, rule, typ+".worker"); f != nil {
+			ok := len(callsTo(f, false, typ[strings.LastIndex(typ, ".")+1:]+".processNextWorkItem")) == 1
+			r.Check(rule, FK(f)+"[loop]", p.Pos(f.Pos()), ok, "for processNextWorkItem() {}", "the worker does not call processNextWorkItem: nothing is ever taken off the queue")
+		}
+	}
+	for _, c := range []struct{ fn, verb, other string }{
+		{"dynamic/clientset.ResourceClient.AddFinalizer", "controllerutil.AddFinalizer", "controllerutil.RemoveFinalizer"},
+		{"dynamic/clientset.ResourceClient.RemoveFinalizer", "controllerutil.RemoveFinalizer", "controllerutil.AddFinalizer"},
+	} {
+		f := fn(r, p, rule, c.fn)
+		if f == nil {
+			continue
+		}
+		ok, why := true, ""
+		if len(callsTo(f, true, c.verb)) != 1 || len(callsTo(f, true, c.other)) != 0 {
+			ok, why = false, "the callback does not call "+c.verb+" (or calls "+c.other+")"
+		}
+		if len(callsTo(f, false, "ResourceClient.AtomicUpdate")) != 1 || len(callsTo(f, false, "ResourceClient.AtomicStatusUpdate")) != 0 {
+			ok, why = false, "the finalizer list is metadata: it is written with AtomicUpdate, not through the status endpoint (which ignores metadata changes)"
+		}
+		r.Check(rule, FK(f), p.Pos(f.Pos()), ok, c.verb+" through AtomicUpdate", why)
+	}
+	n := 0
+	for _, f := range p.Scanned {
+		k := FK(f)
+		if strings.Contains(k, "zzmcvetcontrols") || strings.Contains(k, "/pkg/client/generated") {
+			continue
+		}
+		for _, cs := range callsTo(f, true, "labels.Nothing") {
+			if strings.HasSuffix(engine.Short(k), "decorator.newDecoratorSelector") {
+				continue
+			}
+			n++
+			r.Check(rule, sf("%s→labels.Nothing#%d", Short(k), n), p.InstrPos(cs.Instr), false, "", "labels.Nothing() selects no object: a lister asked with it returns nothing, a selector built from it matches nothing")
+		}
+		for _, cs := range callsTo(f, true, "ResourceClient.AtomicStatusUpdate", "ResourceClient.AtomicUpdate") {
+			isStatus := strings.HasSuffix(cs.Key, "AtomicStatusUpdate")
+			args := cs.Common().Args
+			if len(args) < 3 || strings.HasSuffix(engine.Short(k), "ResourceClient.AddFinalizer") || strings.HasSuffix(engine.Short(k), "ResourceClient.RemoveFinalizer") {
+				continue
+			}
+			cl := p.ResolveFuncValue(args[2])
+			for _, g := range cl {
+				if g == nil || len(g.Params) == 0 {
+					continue
+				}
+				par := g.Params[len(g.Params)-1]
+				meta, status := "", false
+				for _, m := range p.Mutations(g, par) {
+					if strings.Contains(m.What, "status") {
+						status = true
+					} else {
+						meta = m.What
+					}
+				}
+				if isStatus && meta != "" {
+					n++
+					r.Check(rule, sf("%s→AtomicStatusUpdate[callback]#%d", Short(k), n), p.InstrPos(cs.Instr), false, "", "the callback handed to AtomicStatusUpdate edits "+meta+": the status endpoint ignores everything but status, the edit is lost")
+				}
+				if !isStatus && status && meta == "" {
+					n++
+					r.Check(rule, sf("%s→AtomicUpdate[callback]#%d", Short(k), n), p.InstrPos(cs.Instr), false, "", "the callback handed to AtomicUpdate edits only status: with a status subresource the main endpoint ignores it")
+				}
 			}
 		}
 	}
